@@ -262,7 +262,7 @@ func (st *State) heapGet(h *Heap, name string, s Sort) string {
 		return t
 	}
 	init := fmt.Sprintf("%s_e%d", name, h.epoch)
-	if strings.HasPrefix(name, "imm_") {
+	if strings.HasPrefix(name, "imm_") || strings.HasPrefix(name, "ghost_") {
 		init = name + "_e0" // immutable fields are never havocked: one initial array for all epochs
 	}
 	st.declareOnce(init, s)
@@ -487,7 +487,9 @@ func (st *State) havocAll(why string) {
 	old := st.heap
 	st.heap = &Heap{m: map[string]string{}, sorts: map[string]Sort{}, epoch: st.heap.epoch + 1 + freshCtr.n}
 	for k, v := range old.m {
-		if strings.HasPrefix(k, "imm_") {
+		// immutable fields are never havocked; ghost variables change only through
+		// contracts that name them (no code can touch them)
+		if strings.HasPrefix(k, "imm_") || strings.HasPrefix(k, "ghost_") {
 			st.heap.m[k] = v
 			st.heap.sorts[k] = old.sorts[k]
 		}
@@ -725,6 +727,10 @@ func (e *Engine) Verify(fn *ssa.Function, c *Contract) *FuncResult {
 		for _, rq := range c.Requires {
 			t := st.evalBool(rq.Expr, env, rq)
 			st.assume(t)
+		}
+		for _, cp := range c.Captures {
+			st.assume(st.evalBool(cp.Expr, env, cp))
+			res.Assumed["what the captured variables of "+res.Key+" refer to is not modified between the closure's creation and its call ("+cp.Src+")"] = true
 		}
 		// function frame
 		ms := &modSet{allocTop: st.allocTop0, what: "function"}
